@@ -14,21 +14,21 @@ MANIFEST = {
     "text": ("PARTIAL. Proved over coq/model/Conn.v, a model of the framing state machine of client/client.go and client/server.go (readFrame/"
              "writeFrame, readSegment/writeSegment, readSelfContainedSegment, addMultiSegmentPayload, maybeSwitchToModernLayout, adoption of the "
              "STARTUP compression) that is parametric in a frame codec and a segment codec satisfying round-trip laws (discharged by the C01/C03 "
-             "and C06 theorems): legacy delivery of every list of frames written back to back; modern delivery for EVERY segmentation chosen "
-             "by the peer (inductive relation: any grouping of whole envelopes into self-contained segments, any split of one envelope of any "
-             "size over >= 1 non-self-contained segments whose first part holds the 9-byte header, any mixture, no bound on counts or sizes) "
-             "with an empty accumulator at the end; what each end transmits (legacy: the plain frame; modern: one self-contained segment "
-             "holding one envelope with the compression flag clear; an envelope above 131071 bytes is refused, never split); the layout switch "
-             "(both ends switch at the same envelope boundary for v5, never for v2-v4/DSE). Full strength over all splits is REFUTED for the "
-             "code as it is (first part shorter than the header: connection aborted). NOT proved, exercised by the harness only: TCP, partial "
-             "reads, deadlines and the goroutine hand-off - loopback sessions of the real client and server (6 versions x compression x "
+             "and C06 theorems, and for full frames by the assembled message codecs of C01): legacy delivery of every list of frames written "
+             "back to back; modern delivery for EVERY segmentation the specification allows (inductive relation: any grouping of whole envelopes "
+             "into self-contained segments, any cut of one envelope of any size - inside its 9-byte header as well - into any number of parts "
+             "carried by non-self-contained segments, zero-length parts included, any mixture, no bound on counts or sizes) with an empty "
+             "accumulator at the end; what each end transmits (legacy: the plain frame; modern: one self-contained segment holding one envelope "
+             "with the compression flag clear; an envelope above 131071 bytes is refused, never split); the layout switch (both ends switch at "
+             "the same envelope boundary for v5, never for v2-v4/DSE). NOT proved, exercised by the harness only: TCP, partial reads, deadlines "
+             "and the goroutine hand-off - loopback sessions of the real client and server (6 versions x compression x "
              "authentication), a raw peer on the frame and segment codecs that chooses segmentations against the real server and the real "
              "client and checks the v5 bytes they write, and the same scripts evaluated by the model inside coqc."),
     "technique": "Rocq proof over a hand model parametric in the codecs + socket sessions (real client/server, raw peer) + model/code correspondence",
     "design_ref": "3 C15, 4, 8.2",
     "note": ("Partial by nature: TCP, partial reads, deadlines, goroutine scheduling and the channels between the loops and the user are outside "
-             "the model and are exercised, not proved. The instantiation for full frames assumes the per-message laws of C01/C03 and that message "
-             "normalisation keeps the kind of a message; with LZ4 the compressor contract of C08."),
+             "the model and are exercised, not proved. With LZ4 the theorems ask the compressor contract of C08 of every segment payload "
+             "(third-party code); sending an envelope above 131071 bytes in v5 is not supported by the library (stated, outside the quantifier)."),
 }
 
 HEADER = vlib.EVAL_HEADER + """From GCNP Require Import base.GoInt base.Bytes base.Codec model.Hex model.Prim model.Frame model.Segment model.Conn.
@@ -162,7 +162,7 @@ def check(run):
     if hfut is not None:
         rc, out, err = hfut.result()
         begun = None
-        for line in out.splitlines():
+        for line in out.split("\n"):
             if not line.strip():
                 continue
             try:
@@ -243,8 +243,8 @@ def check(run):
     run.coverage["trusted_base"] += [
         "coq/model/Conn.v: hand model of client/client.go and client/server.go framing, faithful as far as the correspondence run compares it",
         "NOT modelled, exercised only: TCP, partial reads, deadlines, goroutine hand-off (channels incoming/outgoing, in-flight handler), SendRaw",
-        "hypotheses of C15_modern_delivery_frames / C15_legacy_delivery_frames: per-message round trip and length laws (C01/C03), message "
-        "normalisation keeps READY/AUTHENTICATE/STARTUP/ERROR kinds; with LZ4: SegmentProofs.comp_contract (C08) on every payload",
+        "C15_modern_delivery_frames / C15_legacy_delivery_frames are stated over model/MsgCodec.v (per-message laws = FrameFinal.H_rt_concrete, "
+        "H_len_concrete); with LZ4: SegmentProofs.comp_contract (C08) on every payload; compressed legacy frames: FrameProofs.comp_lossless",
         "third-party compressors pierrec/lz4 and golang/snappy (known finding lz4-offset-65536 of C08: payload generators keep away from it)",
     ]
 
@@ -271,7 +271,8 @@ def check(run):
         "thorough: both), requests of 8 kinds and sizes 0..~200 KB (legacy; thorough ~1 MB) / ~100 KB (v5) with an echoing server, equality up to "
         "nil/empty checked on both sides; rawclient / rawserver = a peer written on the frame and segment codecs against the real server / real "
         "client with seeded segmentations (1..k envelopes per self-contained segment, one envelope of a few hundred KiB cut at seeded points, maximal "
-        "parts, small envelopes cut into many parts, two-part splits at chosen (thorough: every) split point), chunked writes, and the v5 bytes written "
+        "parts, small envelopes cut into many parts, two-part splits at chosen (thorough: every) split point including cuts inside the 9-byte "
+        "header, a header spread over many parts with zero-length parts), chunked writes, and the v5 bytes written "
         "by the real side checked (handshake unframed, every segment decodes, envelopes inside have the compression flag clear); evaluations = "
         "envelopes + segments exchanged; non-trivial = a distinct (mode, version, compression, authentication, script class) session that carried an "
         "envelope above 65535 bytes, or segments, or a negotiated compression; traces validated = v5 raw sessions re-evaluated by the model "
